@@ -11,4 +11,4 @@ module D = Driver.Make (struct
   let case_pos = function M.XI q -> `I q | M.XO q -> `O q | M.XH -> `H
   let case_z = function M.Z0 -> `Z0 | M.Zpos p -> `Pos p | M.Zneg p -> `Neg p
 end)
-let () = D.main [ ("C01", M.run_C01); ("C02", M.run_C02) ]
+let () = D.main [ ("C01", M.run_C01); ("C02", M.run_C02); ("C17", M.run_C17) ]
